@@ -25,7 +25,7 @@ def out_dir():
     if os.path.realpath(os.environ.get('EQSIG_REPO', '/repo')) != os.path.realpath('/repo'):
         return os.path.join(tempfile.gettempdir(), 'vf_scratch_out')
     return HERE
-SHARD_TIMEOUT = {'quick': 900, 'thorough': 3 * 3600}   # generous watchdogs: firing = inconclusive, never a verdict
+SHARD_TIMEOUT = {'quick': 2400, 'thorough': 3 * 3600}   # generous watchdogs: firing = inconclusive, never a verdict
 
 
 def load_module(prop_id):
